@@ -565,6 +565,10 @@ fn judge(sources: &[OParse], entries: &Option<Vec<OAuth>>, seen: Seen) -> Result
 			}
 		}
 		(Seen::Status(400), None) => Ok(vec![]),
+		// a source that is present but is no well-formed authority (e.g. `Host: 9.://80`) is reason enough
+		// for 400: the statement demands 400 "when no single authority can be determined" and never forbids
+		// refusing a request whose Host header / target is garbage
+		(Seen::Status(400), Some(_)) if sources.iter().any(|s| !matches!(s, OParse::Ok(_))) => Ok(vec!["obs.400.malformed_source_next_to_a_good_one"]),
 		(Seen::Status(400), Some(a)) => Err(format!("400 although the single authority {}:{:?} can be determined", a.host, a.port)),
 		(Seen::Status(403), None) => Err("403 although no single authority can be determined (400 expected)".into()),
 		(Seen::Status(403), Some(a)) => {
